@@ -44,7 +44,10 @@ RULE = ('catalogue rows: seeded sample (quick) / all 2593 (thorough) x 9 wavelen
         'shape, elementwise agreement with the scalar call and with the independent oracle (no Coq involved); '
         'history independence: Material(...) constructed repeatedly in one process - every case-colliding catalogue name pair '
         'in both orders with repeats, the same name under different references / wavelength bounds / robust flags - each call '
-        'judged against the stateless lookup model')
+        'judged against the stateless lookup model; '
+        'argument types: whole-micron wavelengths inside the range of catalogue rows of every formula / table layout and '
+        'of generated data files of all nine formulas, passed as Python int, numpy int64/int32 scalars, 0-d / 1-D / 2-D '
+        'integer arrays and as floats - result shape and value against the formula / interpolation evaluated from the file')
 PARTIAL = [
     'exact_lookup_partial: proved for the lower-cased strings and a literal substring filter; the gaps to the stated property '
     'are the findings D14 (regex filter) and D14b (case collision)',
